@@ -46,7 +46,8 @@ MANIFEST = {
 
 REQUIRED = ["KV.C13.z_incremental", "KV.C13.normalised", "KV.C13.formula", "KV.C13.ngram_union",
             "KV.C13.single_identity", "KV.C13.spec_eq_tool", "KV.C13.formula_spec", "KV.C13.pass12_refines",
-            "KV.C13.vocab_union", "KV.C13.ngram_union_renumbered", "KV.C13.pass1_on_sorted_streams", "KV.C13.pass1_record_values", "KV.C13.pass2_stream_refines", "KV.C13.pass2_on_sorted_streams", "KV.C13.visited_contexts", "KV.C13.pass3_zip", "KV.C13.bse_roundtrip", "KV.C13.bse_no_ub", "KV.C13.bse_shift64_witness", "KV.C13.equal_orders_not_stuck", "KV.C13.abort_witness",
+            "KV.C13.vocab_union", "KV.C13.ngram_union_renumbered", "KV.C13.pass1_on_sorted_streams", "KV.C13.pass1_kway", "KV.C13.kway_selects_head", "KV.C13.c13_3_wrong_model_index",
+            "KV.C13.backoff_matrix_get", "KV.C13.charging_loop", "KV.C13.c13_5_wrong_level", "KV.C13.merge_vocab_ids", "KV.C13.pass1_record_values", "KV.C13.pass2_stream_refines", "KV.C13.pass2_on_sorted_streams", "KV.C13.visited_contexts", "KV.C13.pass3_zip", "KV.C13.bse_roundtrip", "KV.C13.bse_no_ub", "KV.C13.bse_shift64_witness", "KV.C13.equal_orders_not_stuck", "KV.C13.abort_witness",
             "KV.C13.termination_fails_mixed_orders", "KV.C13.formula_real", "KV.C13.normalised_real",
             "KV.C13.interp_nonpos", "KV.C13.z_incremental_real"]
 
@@ -294,7 +295,7 @@ def run_case(ctx, case, bins, dexe, wd, cap_ctx):
     n_high = sum(len(m["entries"].get(k, [])) for m in models for k in range(2, maxo + 1))
     r.detail["stream"] = stream_line
     if not (sf.get("shape") == "true" and sf.get("consumed") == "true" and G.f64_from_bits(sf["maxdev"]) <= 1e-9
-            and sf.get("p1shape") == "true" and sf.get("p1ok") == "true"):
+            and sf.get("p1shape") == "true" and sf.get("p1ok") == "true" and sf.get("matok") == "true"):
         r.status, r.what = "violation", "Lean stream model of pass 2 disagrees with the functional model: " + stream_line
         r.no_input = True
         return r
